@@ -160,6 +160,21 @@ def pickle_histories():
     return H
 
 
+def truth_histories():
+    """C10: a solver's is_true / is_false; the answers are memoised per expression (shared by every solver of the backend), so the ORDER of
+    the questions and what other solvers were asked matters"""
+    H = {}
+    for atom in ("x!=K2", "x<=K0", "x==K0|x==K1", "b", "x&K0==K1"):
+        H[f"true-then-false:{atom}"] = [("add", 0, [A]), ("is_true", 0, atom, []), ("is_false", 0, atom, []), ("is_true", 0, atom, [])]
+        H[f"false-then-true:{atom}"] = [("add", 0, [A]), ("is_false", 0, atom, []), ("is_true", 0, atom, []), ("is_false", 0, atom, [])]
+    H["extra-then-plain"] = [("add", 0, [A]), ("is_true", 0, "x!=K2", ["x==K0"]), ("is_true", 0, "x!=K2", []), ("is_false", 0, "x!=K2", ["x==K1"]), ("is_false", 0, "x!=K2", [])]
+    H["other-solver-asked-first"] = [("branch", 0, 1), ("add", 1, ["x==K0"]), ("is_true", 1, "x<=K0", []), ("is_false", 1, "x>K2", []), ("is_true", 0, "x<=K0", []), ("is_false", 0, "x>K2", [])]
+    H["constraints-then-truth"] = [("add", 0, ["x==K0"]), ("is_true", 0, "x==K0", []), ("is_false", 0, "x!=K0", []), ("is_true", 0, "x<=K0", []), ("is_false", 0, "x==K1", [])]
+    H["unsat-set"] = [("add", 0, [A, "x>K2"]), ("is_true", 0, "x==K1", []), ("is_false", 0, "x==K1", [])]
+    H["literal"] = [("add", 0, [A]), ("is_true", 0, "true", []), ("is_false", 0, "true", []), ("is_true", 0, "false", []), ("is_false", 0, "false", [])]
+    return H
+
+
 def fault_histories():
     T = p_c11.targeted()
     keep = ["exh-eval-min-u-x", "exh-eval-max-s-x", "max-then-eval-x", "eval-few-then-eval-x", "model-invalidation", "sat-cache-contradiction",
@@ -172,6 +187,7 @@ def fault_histories():
 
 PROPS = {
     # prop: (histories, classes, options)
+    "C10": (truth_histories, ["Solver", "SolverComposite", "SolverReplacement", "SolverHybridExact"], {}),
     "C12": (lambda: {**composite_histories(), **{k: v for k, v in p_c11.targeted().items() if hmod(k, 5) == 0}}, ["SolverComposite"], {}),
     "C13": (lambda: {**replacement_histories(), **{k: v for k, v in p_c11.targeted().items() if hmod(k, 4) == 0}}, ["SolverReplacement", "SolverHybridExact"], {}),
     "C14": (branch_histories, ALLCLS, {}),
@@ -226,7 +242,7 @@ def run_obligation(oid, params, tier):
     return p_hist.run_obligation_generic(oid, params, tier, params["prop"])
 
 
-LEVELS = {"C12": "model_checking", "C13": "model_checking", "C14": "model_checking", "C15": "model_checking", "C16": "model_checking",
+LEVELS = {"C10": "model_checking", "C12": "model_checking", "C13": "model_checking", "C14": "model_checking", "C15": "model_checking", "C16": "model_checking",
           "C17": "fault_enumeration", "C18": "model_checking"}
 
 EXTRA_FUNCS = {
